@@ -155,6 +155,13 @@ func Norm(v any) any {
 		if n, uv, ok := IsUnion(v); ok {
 			return map[string]any{"$union": n, "$value": Norm(uv)}
 		}
+		if alts, ok := x["$alt"].([]any); ok {
+			o := make([]any, len(alts))
+			for i := range alts {
+				o[i] = Norm(alts[i])
+			}
+			return map[string]any{"$alt": o}
+		}
 		o := map[string]any{}
 		for k, e := range x {
 			if ne := Norm(e); ne != nil {
@@ -179,6 +186,23 @@ func Diff(want, got any) []string {
 func diff(path string, w, g any, out *[]string) {
 	if len(*out) > 20 {
 		return
+	}
+	if wm, ok := w.(map[string]any); ok {
+		if alts, ok := wm["$alt"].([]any); ok {
+			var first []string
+			for i, a := range alts {
+				var sub []string
+				diff(path, a, g, &sub)
+				if len(sub) == 0 {
+					return
+				}
+				if i == 0 {
+					first = sub
+				}
+			}
+			*out = append(*out, fmt.Sprintf("%s: no alternative matches (first: %s)", path, strings.Join(first, "; ")))
+			return
+		}
 	}
 	switch x := w.(type) {
 	case nil:
@@ -344,3 +368,6 @@ func IsZeroLeaf(v any) bool {
 	}
 	return false
 }
+
+// Alt builds an alternatives node: the value must equal one of the given trees.
+func Alt(alts ...any) any { return map[string]any{"$alt": alts} }
